@@ -108,7 +108,11 @@ def checkCsv : P String := do
         let expected : Frame := f.map (fun kc => (kc.1, { kc.2 with data := kc.2.data.map csvNormalize }))
         if !frameNumEq expected b then c09 := firstFail c09 "fail:round-trip"
       | none => c09 := firstFail c09 "fail:round-trip-error"
-    if Frame.toCSV ω f != bytes then corr := "fail:bytes-differ"
+    -- the text is compared through the reader: a different but equivalent quoting decision is not a disagreement
+    if Frame.toCSV ω f != bytes then
+      match Csv.readAll bytes, Csv.readAll (Frame.toCSV ω f) with
+      | .ok a, .ok b => if a != b then corr := "fail:csv-text-reads-differently"
+      | _, _ => corr := "fail:csv-text-unreadable"
     match Frame.fromCSV ω bytes, back with
     | .ok m, some b => if !frameNumEq m b then corr := firstFail corr "fail:frame-differs"
     | .err _, none => pure ()
